@@ -11,6 +11,7 @@ import (
 	"strings"
 	"sync"
 	"sync/atomic"
+	"syscall"
 	"time"
 
 	"github.com/nulab/autog/zzverif/spec"
@@ -119,6 +120,7 @@ func (c *capBuf) take() string {
 func (p *Pool) spawn() (*worker, error) {
 	cmd := exec.Command(p.Bin, p.Args...)
 	cmd.Env = append(os.Environ(), p.Env...)
+	cmd.SysProcAttr = &syscall.SysProcAttr{Pdeathsig: syscall.SIGKILL} // workers never outlive the supervisor
 	in, err := cmd.StdinPipe()
 	if err != nil {
 		return nil, err
